@@ -225,6 +225,18 @@ impl Lc {
     //@| -> (out: GenK) ensures out.k@ == xm(x.k@, y.k@)
 
 
+    /// From<(X, R)>: the single term r x -- and nothing stored when r = 0 (the base of PolyBase::from_const / from / one)
+    pub fn from(value: (GenK, ER)) -> (r: Lc)
+        ensures r.nz(), r.wf(), forall|k: int| r.at(k) == (if k == value.0.k@ { value.1.v() } else { r0() }),
+    //@body impl/From@Lc/from#1 subst=Self::from_iter:lc_from_arr1_
+    //@+ sig
+    //@| fn from(value: (X, R)) -> Self
+    //@+ post
+    //@| let one = seq![(value.0.k@, value.1.v())];
+    //@| assert(one.drop_last() =~= Seq::<(int, int)>::empty());
+    //@| ax_add_zero(value.1.v());
+    //@| assert forall|k: int| __ret.at(k) == (if k == value.0.k@ { value.1.v() } else { r0() }) by { assert(acc(one, k) == (if one.last().0 == k { radd(acc(one.drop_last(), k), one.last().1) } else { acc(one.drop_last(), k) })); }
+
     /// `map`: every term (x, r) is replaced by f(x, r) and the results are collected (equal generators add up, zero terms vanish)
     pub fn map<F: Fn(&GenK, &ER) -> (GenK, ER)>(&self, f: F) -> (res: Lc)
         requires forall|x: &GenK, r: &ER| f.requires((x, r)),
@@ -302,6 +314,9 @@ impl Lc {
     //@| }
     //@| assert(gens_items(&f, ord, items));
 } // impl Lc
+/// `Lc::from_iter([value])` on a one-element array (ASSUMED: an array iterates over its elements; then the proved from_iter)
+#[verifier::external_body] pub fn lc_from_arr1_(a: [(GenK, ER); 1]) -> (r: Lc)
+    ensures r.nz(), r.wf(), forall|k: int| r.at(k) == acc(seq![(a@[0].0.k@, a@[0].1.v())], k) { unimplemented!() }
 /// `collect::<Lc>()` of a Vec's items = FromIterator::from_iter on them (rule R45)
 pub fn lc_collect_(v: Vec<(GenK, ER)>) -> (r: Lc)
     ensures r.nz(), r.wf(), forall|k: int| r.at(k) == acc(pitems(v@), k)
